@@ -136,6 +136,13 @@ class LocalDef:
     defaults: dict
 
 
+@dataclass(eq=False)
+class RawFunc:
+    """A package function as handed to its own decorators: calling it runs the undecorated body."""
+
+    func: "Func"
+
+
 class RaiseSignal(Exception):
     def __init__(self, exc_name: str, node: ast.AST, payload=None):
         self.exc_name = exc_name
@@ -293,6 +300,19 @@ class Interp:
         raise Undecided(f"unbound name {name} in {self.func.qual}")
 
     def get_attr(self, base, attr: str, node):
+        if isinstance(base, RawFunc):
+            f_ = base.func
+            if attr == "__name__":
+                return f_.name
+            if attr == "__qualname__":
+                return f"{f_.cls.name}.{f_.name}" if f_.cls is not None else f_.name
+            if attr == "__module__":
+                return f_.module.name
+            if attr == "__doc__":
+                return ast.get_docstring(f_.node)
+            if attr == "__wrapped__":
+                raise RaiseSignal("AttributeError", node)
+            return Unknown(f"function.{attr}")
         if isinstance(base, Obj):
             if attr == "__class__":
                 return base.cls
@@ -694,11 +714,12 @@ class Interp:
                 self.exec_block(case.body)
                 break
         elif isinstance(st, ast.FunctionDef):
-            if st.decorator_list or any(isinstance(n, (ast.Nonlocal, ast.Global, ast.Yield, ast.YieldFrom)) for n in ast.walk(st)):
+            plain = all(isinstance(d, ast.Call) and (dotted(d.func) or "").split(".")[-1] == "wraps" for d in st.decorator_list)  # functools.wraps: metadata only
+            if not plain or any(isinstance(n, (ast.Nonlocal, ast.Global, ast.Yield, ast.YieldFrom)) for n in ast.walk(st)):
                 raise Undecided("nested definition (decorated / nonlocal / generator)")
             a = st.args
-            if a.vararg or a.kwarg or a.posonlyargs:
-                raise Undecided("nested definition with *args/**kwargs")
+            if a.posonlyargs:
+                raise Undecided("nested definition with positional-only parameters")
             defaults = {}
             for arg, d in zip(a.args[len(a.args) - len(a.defaults) :], a.defaults):
                 defaults[arg.arg] = self.eval(d)
@@ -1229,6 +1250,15 @@ class Interp:
             if fv.name == "get":
                 k = _hashable(args[0])
                 return d.get(k, args[1] if len(args) > 1 else None)
+        if isinstance(fv, RawFunc):
+            f_ = fv.func
+            self.root.__dict__["_raw_once"] = f_.qual  # (subclasses override call_func: the flag travels beside it)
+            try:
+                if f_.cls is not None and not f_.is_staticmethod and args:
+                    return self.call_func(f_, list(args[1:]), kwargs, node, self_obj=args[0])
+                return self.call_func(f_, args, kwargs, node)
+            finally:
+                self.root.__dict__.pop("_raw_once", None)
         if isinstance(fv, Func):
             return self.call_func(fv, args, kwargs, node)
         if isinstance(fv, BoundMethod):
@@ -1289,13 +1319,21 @@ class Interp:
         a = ld.node.args
         names = [x.arg for x in a.args]
         kwonly = [x.arg for x in a.kwonlyargs]
-        if len(args) > len(names):
+        if len(args) > len(names) and a.vararg is None:
             raise RaiseSignal("TypeError", node)
         bound = dict(zip(names, args))
+        if a.vararg is not None:
+            bound[a.vararg.arg] = tuple(args[len(names) :])
+        rest = {}
         for k, v in kwargs.items():
             if k not in names + kwonly or k in bound:
-                raise RaiseSignal("TypeError", node)
+                if a.kwarg is None:
+                    raise RaiseSignal("TypeError", node)
+                rest[k] = v
+                continue
             bound[k] = v
+        if a.kwarg is not None:
+            bound[a.kwarg.arg] = rest
         for n in names + kwonly:
             if n not in bound:
                 if n in ld.defaults:
@@ -1349,7 +1387,52 @@ class Interp:
                 o.attrs[k] = v
         return o
 
+    def _decorator_plan(self, f: Func) -> list:
+        """The decorators of `f` that have to be run to know what a call of `f` does: those defined in the
+        package whose wrapper does anything but pass its own *args / **kwargs on and hand the result back."""
+        cache = self.prog.__dict__.setdefault("_decorator_plans", {})
+        if f.qual in cache:
+            return cache[f.qual]
+        plan = []
+        for d in f.node.decorator_list:
+            target = d.func if isinstance(d, ast.Call) else d
+            nm = (dotted(target) or "").split(".")[-1]
+            if nm in ("property", "classmethod", "staticmethod", "abstractmethod", "cached_property", "dataclass", "overload", "wraps", "lru_cache", "cache", "setter", "getter", "deleter", "total_ordering"):
+                continue
+            try:
+                r = self.prog.resolve_dotted(f.module, target)
+            except Exception:
+                r = None
+            if not isinstance(r, Func):
+                continue  # not from the package
+            if _transparent_decorator(r):
+                continue
+            plan.append(d)
+        cache[f.qual] = plan
+        return plan
+
+    def _call_decorated(self, f: Func, plan, args, kwargs, node, self_obj):
+        store = self.root.__dict__.setdefault("_decorated", {})
+        val = store.get(f.qual)
+        if val is None:
+            val = RawFunc(f)
+            for d in reversed(plan):
+                dv = self.eval_in_module(f.module, d)
+                val = self.apply(dv, [val], {}, node)
+            store[f.qual] = val
+        if isinstance(val, RawFunc):
+            return self.apply(val, ([self_obj] if (f.cls is not None and not f.is_staticmethod) else []) + list(args), kwargs, node)
+        lead = [self_obj] if (f.cls is not None and not f.is_staticmethod and self_obj is not None) else []
+        return self.apply(val, lead + list(args), kwargs, node)
+
     def call_func(self, f: Func, args, kwargs, node, self_obj=None):
+        _raw = self.root.__dict__.get("_raw_once") == f.qual
+        if _raw:
+            self.root.__dict__.pop("_raw_once", None)
+        if not _raw and f.node.decorator_list:
+            plan = self._decorator_plan(f)
+            if plan:
+                return self._call_decorated(f, plan, args, kwargs, node, self_obj)
         # a function proved to be an exact label enumerator is read as the anchor every domain models
         ve = self.prog.__dict__.get("_verified_enum")
         if ve is None and self_obj is None and len(args) + len(kwargs) == 1:
@@ -1662,6 +1745,34 @@ _ABSTRACT_TYPES = {
     "Number": lambda v: isinstance(v, (int, float, Fraction)),
     "PathLike": lambda v: False,
 }
+
+
+def _transparent_decorator(dec: "Func") -> bool:
+    """`dec` (a decorator, or a decorator factory) wraps a function so that every call passes the wrapper's
+    own *args / **kwargs on unchanged and returns the wrapped function's result unchanged."""
+    wrappers = [n for n in ast.walk(dec.node) if isinstance(n, ast.FunctionDef) and n is not dec.node and n.args.vararg is not None and n.args.kwarg is not None]
+    if not wrappers:
+        return False
+    for w in wrappers:
+        va, ka = w.args.vararg.arg, w.args.kwarg.arg
+        calls = [c for c in ast.walk(w) if isinstance(c, ast.Call) and len(c.args) == 1 and isinstance(c.args[0], ast.Starred) and isinstance(c.args[0].value, ast.Name) and c.args[0].value.id == va]
+        ok_calls = [c for c in calls if len(c.keywords) == 1 and c.keywords[0].arg is None and isinstance(c.keywords[0].value, ast.Name) and c.keywords[0].value.id == ka and isinstance(c.func, ast.Name)]
+        if not ok_calls or len(ok_calls) != len(calls):
+            return False
+        # no rebinding / mutation of the two before the call, the result is returned as it is
+        for n in ast.walk(w):
+            if isinstance(n, ast.Name) and n.id in (va, ka) and isinstance(n.ctx, (ast.Store, ast.Del)):
+                return False
+            if isinstance(n, (ast.Subscript, ast.Attribute)) and isinstance(n.value, ast.Name) and n.value.id == ka and (isinstance(n.ctx, (ast.Store, ast.Del)) or (isinstance(n, ast.Attribute) and n.attr in ("pop", "update", "setdefault", "clear", "popitem"))):
+                return False
+        res_names = set()
+        for n in ast.walk(w):
+            if isinstance(n, ast.Assign) and n.value in ok_calls:
+                res_names |= {t.id for t in n.targets if isinstance(t, ast.Name)}
+        rets = [n for n in ast.walk(w) if isinstance(n, ast.Return)]
+        if not rets or not all(r.value in ok_calls or (isinstance(r.value, ast.Name) and r.value.id in res_names) for r in rets):
+            return False
+    return True
 
 
 import builtins as _bi
